@@ -16,3 +16,7 @@ import StunVerif.Props.SrcFnBuilder
 #print axioms StunVerif.SrcFnBuilder.src_addAttribute
 #print axioms StunVerif.SrcFnBuilder.src_addFingerprint
 #print axioms StunVerif.SrcFnBuilder.model_addFingerprint_refused
+#print axioms StunVerif.SrcFnBuilder.src_addMessageIntegrity_guard
+#print axioms StunVerif.SrcFnBuilder.src_integrityBytes
+#print axioms StunVerif.SrcFnBuilder.src_addMessageIntegrity
+#print axioms StunVerif.SrcFnBuilder.src_addFingerprint_full
